@@ -18,3 +18,25 @@ pub use unlexer::unlex;
 
 #[cfg(test)]
 mod tests;
+
+/// Verification hooks (only with `--cfg trark_rssl_verif`): raw lexer and condition parser access
+#[cfg(trark_rssl_verif)]
+pub mod verif {
+    pub use crate::condition_parser::parse as parse_condition;
+    pub use crate::lexer::{LexerError, LexerErrorReason, TokenStream};
+
+    /// Lex a text without any directive handling
+    pub fn lex(
+        input: &str,
+        base_location: rssl_text::SourceLocation,
+        trailing_endline: bool,
+    ) -> Result<Vec<rssl_text::tokens::PreprocessToken>, LexerError> {
+        let stream = TokenStream::new(input, base_location);
+        let mut stream = if trailing_endline {
+            stream
+        } else {
+            stream.suppress_trailing_endline()
+        };
+        stream.read_to_end()
+    }
+}
